@@ -2,7 +2,7 @@
 F = "src/query/test_function.rs"
 
 UNITS = [
-    Unit(name="TestFunction::apply", file=F, impl="impl TestFunction", fn="apply", order=50, serves=["C10"],
+    Unit(name="TestFunction::apply", calls=['FnArg::process'], file=F, impl="impl TestFunction", fn="apply", order=50, serves=["C10"],
          requires=[("wf", "wf_fn(*self)"), ("cur", "is_cur(state)")],
          ensures=[("rel", "fn_rel(*self, state, r)")],
          body_prefix="proof { T::from_bool_roundtrip(true); T::from_bool_roundtrip(false); }"),
@@ -13,7 +13,7 @@ UNITS = [
     open spec fn process_rel<'a, T: Queryable>(&self, state: State<'a, T>, r: State<'a, T>) -> bool { fn_rel(*self, state, r) }
 """,
          ensures=[("rel", "self.process_rel(step, r)")]),
-    Unit(name="FnArg::process", file=F, impl="impl Query for FnArg", fn="process", order=50,
+    Unit(name="FnArg::process", calls=['Literal::process', 'Test::process', 'Filter::process'], file=F, impl="impl Query for FnArg", fn="process", order=50,
          trait_method=True, serves=["C10"],
          impl_extra="""
     open spec fn process_pre<'a, T: Queryable>(&self, state: State<'a, T>) -> bool { wf_arg(*self) && is_cur(state) }
